@@ -186,8 +186,12 @@ fn job(seed: u64, j: usize, tier: Tier) -> Outcome {
                         // ---- objects, labels, EXP / S / TTL in order
                         o.hit("objects_decoded_in_order");
                         match decode_objects(&ext) {
-                            Err(e) => o.violate("objects_decoded_in_order", format!("{site}|error"), e, replay.clone()),
+                            Err(e) => {
+                                o.violate("objects_decoded_in_order", format!("{site}|error"), e, replay.clone());
+                                continue;
+                            }
                             Ok(got) => {
+                                let mut trustworthy = got == objects;
                                 if got != objects {
                                     o.violate("objects_decoded_in_order", site.clone(), format!("decoded {got:?} != encoded {objects:?}"), replay.clone());
                                 }
@@ -201,8 +205,17 @@ fn job(seed: u64, j: usize, tier: Tier) -> Outcome {
                                     let upto = want.iter().position(|m| m.s == 1).map_or(want.len(), |p| p + 1);
                                     match decode_mpls(&ob.payload) {
                                         Ok(g) if g == want[..upto] => {}
-                                        other => o.violate("mpls_members_decoded", site.clone(), format!("{other:?} != {:?}", &want[..upto]), replay.clone()),
+                                        other => {
+                                            trustworthy = false;
+                                            o.violate("mpls_members_decoded", site.clone(), format!("{other:?} != {:?}", &want[..upto]), replay.clone());
+                                        }
                                     }
+                                }
+                                // the iterators were walked with a cap above; the code below
+                                // (Extensions::try_from, the receive path) walks them without
+                                // one, so it is not entered with iterators that already misbehave
+                                if !trustworthy {
+                                    continue;
                                 }
                             }
                         }
@@ -413,6 +426,12 @@ pub fn run(tier: Tier, seed: u64, only: Option<usize>) -> i32 {
         }
         None => {
             rep.run_parallel(n, |i| job(seed, i, tier));
+            if !rep.violations.is_empty() {
+                // the end-to-end stages run whole tracers over the same parsers, uncapped: with
+                // object / label iterators that do not decode (or do not terminate) they would
+                // add nothing but the risk of a run that never ends
+                return rep.finish();
+            }
             // end to end: the real tracer (strategy and state included) over long paths whose
             // routers and target attach extension objects, extension parsing enabled; what was
             // encoded must arrive in ProbeComplete.extensions (the C02 scenario runner, restricted
